@@ -760,9 +760,19 @@ class BuiltinMixin:
             raise Unsupported(f"bytes.{name}")
 
     def str_method(self, st, s, name, args, kwargs):
-        if isinstance(s, StrV) and all(isinstance(a, StrV) for a in args) and not kwargs and \
-                name in ("lower", "upper", "strip", "startswith", "endswith", "replace", "split"):
-            r = getattr(s.s, name)(*[a.s for a in args])
+        def lit(a):
+            if isinstance(a, StrV):
+                return a.s
+            c = self.pyconst(a) if (self.is_int(a) or a is NONE) else None
+            return c if (c is not None or a is NONE) else Ellipsis
+        lits = [lit(a) for a in args]
+        if isinstance(s, StrV) and all(x is not Ellipsis for x in lits) and not kwargs and \
+                name in ("lower", "upper", "strip", "lstrip", "rstrip", "startswith", "endswith", "replace", "split", "rsplit",
+                         "partition", "rpartition", "find", "count", "isdigit", "title", "capitalize"):
+            r = getattr(s.s, name)(*lits)
+            if isinstance(r, tuple):
+                yield st, TupleV([StrV(x) for x in r])
+                return
             if isinstance(r, list):
                 yield st.alloc(Obj(None, "list", None, [StrV(x) for x in r]))
             else:
